@@ -33,6 +33,8 @@ def extract_compact(value: bytes) -> CompactEncryption:
     header_segment, ek_segment, iv_segment, ciphertext_segment, tag_segment = parts
     try:
         protected = json_b64decode(header_segment)
+        if not isinstance(protected, dict):
+            raise ValueError("Header must be a JSON object")
         if "alg" not in protected:
             raise MissingAlgorithmError()
         if "enc" not in protected:
